@@ -3,15 +3,15 @@ C02 — The request list of every advance_frame call is executable and frame-con
 (the producers of the three request kinds).
 
 `C02_consistent_partial` (Proofs/Replay.lean, Shape.lean, Consistent.lean, World.lean) is the
-all-schedules statement for rollback-mode P2P sessions WITHOUT sparse saving and without
-disconnected players: for every interleaving of remote-input arrivals and `advance_frame` calls,
+all-schedules statement for rollback-mode P2P sessions without disconnected players, with or
+without sparse saving (Proofs/ShapeSp.lean, ConsistentSp.lean): for every interleaving of remote-input arrivals and `advance_frame` calls,
 with the game executing every request list in order and its saves reaching the cells, the request
 list of the next call passes the frame-consistency check `ChkList` from the current check state —
 every SaveGameState names the frame the game is at, every LoadGameState names an earlier frame
 whose cell is tagged with it and still holds a state of the CURRENT timeline, AdvanceFrame
 requests move one frame on — and afterwards the game is at `current_frame()`, unchanged or one
 higher. `GInv_execs` turns a passed check into "the game's state is the replay of its timeline and
-every load restored the state of the loaded frame". Sparse saving, the disconnect paths, SyncTest
+every load restored the state of the loaded frame". The disconnect paths, SyncTest
 and spectator sessions are decided by the monitor on traces (their request lists are checked by
 the same clauses there).
 -/
@@ -64,18 +64,30 @@ end Ggrs.SyncLayer
 
 namespace Ggrs
 
-/-- **C02, all schedules (partial: rollback mode, no sparse saving, no disconnected players).** -/
+/-- **C02, all schedules (partial: rollback mode, no disconnected players; sparse saving or not).**
+For every run of the world (remote inputs arriving, `advance_frame` calls whose request lists the
+game executes in order, its saves reaching the cells — including the very first call with its
+extra save of frame 0), the next call's request list passes the frame-consistency check from a
+check state that matches the game (`GInv`), and ends at `current_frame()`, unchanged or one
+higher. -/
 theorem C02_consistent_partial {G : Type} (step : G → List (Input × InputStatus) → G) (g0 : G)
     (a b : P2P × GS G) (h0 : WInv step g0 a.1 a.2) (hrun : WStar step a b)
-    (now : Nat) (pre reqs' : List Request) (s' : P2P)
-    (hpre : pre = [] ∨ (b.1.sync.currentFrame = 0 ∧ pre = [.save 0]))
-    (hadv : b.1.advanceRollbackFrame now pre = .ok (s', reqs')) :
-    (∃ c c', QInv b.1.sync.cells.length c ∧ GInv step g0 b.1.sync.cells.length b.2 c ∧
-      ChkList b.1.sync.cells.length c reqs' c' ∧ c'.cur = s'.sync.currentFrame) ∧
-    (s'.sync.currentFrame = b.1.sync.currentFrame ∨ s'.sync.currentFrame = b.1.sync.currentFrame + 1) := by
+    (now : Nat) (reqs' : List Request) (s' : P2P)
+    (hadv : b.1.advanceRollbackFrame now [] = .ok (s', reqs')) :
+    TickOK step g0 b.1 b.2 s' reqs' := by
   have h := WInv_run step g0 a b h0 hrun
-  have := WInv_tick step g0 b.1 s' b.2 now pre reqs' ((savedFrames reqs').map fun f => (f, none)) h hpre hadv
-    (by simp [List.map_map, Function.comp_def])
-  exact this.2
+  exact (WInv_tick step g0 b.1 s' b.2 now reqs' ((savedFrames reqs').map fun f => (f, none)) h hadv
+    (by simp [List.map_map, Function.comp_def])).2
+
+/-- The same for the first call, which saves frame 0 before anything else. -/
+theorem C02_consistent_first_call {G : Type} (step : G → List (Input × InputStatus) → G) (g0 : G)
+    (a b : P2P × GS G) (h0 : WInv step g0 a.1 a.2) (hrun : WStar step a b)
+    (now : Nat) (sy : SyncLayer) (r : Request) (reqs' : List Request) (s' : P2P)
+    (hf0 : b.1.sync.currentFrame = 0) (hsv : b.1.sync.saveCurrentState = .ok (sy, r))
+    (hadv : ({ b.1 with sync := sy } : P2P).advanceRollbackFrame now [r] = .ok (s', reqs')) :
+    TickOK step g0 b.1 b.2 s' reqs' := by
+  have h := WInv_run step g0 a b h0 hrun
+  exact (WInv_tick0 step g0 b.1 s' b.2 now sy r reqs' ((savedFrames reqs').map fun f => (f, none)) h hf0 hsv hadv
+    (by simp [List.map_map, Function.comp_def])).2
 
 end Ggrs
